@@ -146,7 +146,9 @@ impl<'a> Gen<'a> {
                 let (scrut, st) = self.any(&empty, d - 1);
                 let mut b = vec![];
                 let p = self.pattern(&st, cx, 2, &mut b);
-                let inner = cx.with_flow(None);
+                let mut inner = cx.with_flow(None);
+                // names the pattern (re)binds — explicitly or through a star — are nil-filled when it fails: not used afterwards
+                inner.vars.retain(|(n, _)| !b.iter().any(|(bn, _)| bn == n) && !FIELDS.contains(&n.as_str()));
                 let v = self.of(t, &inner, d - 1);
                 if v.starts_with('{') || v.starts_with('~') || v.starts_with("[...") || v.starts_with('$') { return v; }
                 // a variable scrutinee would be narrowed by the pattern for the rest of the chain even when the match fails
